@@ -212,16 +212,6 @@ func H_C01(v *zzverif.T) {
 	for _, spec := range g.inits {
 		inits = append(inits, zzParseSpec(v, spec, "init_"))
 	}
-	supplied := v.CStrs("supplied")
-	var caller []zzTData
-	for _, spec := range g.inputs {
-		name, _ := zzParseTensorSpec(spec)
-		for _, s := range supplied {
-			if s == name {
-				caller = append(caller, zzParseSpec(v, spec, "in_"))
-			}
-		}
-	}
 	var m *Model
 	var lerr error
 	mp := g.zzModelProto(inits)
@@ -238,58 +228,79 @@ func H_C01(v *zzverif.T) {
 	if panicked || lerr != nil {
 		return
 	}
-	in := Tensors{}
-	refEnv := map[string]tensor.Tensor{}
-	// the reference gets its own tensor objects
-	for _, d := range inits {
-		refEnv[d.name] = d.zzTensor()
-	}
-	for _, d := range caller {
-		in[d.name] = d.zzTensor()
-		refEnv[d.name] = d.zzTensor() // a caller tensor overrides the initializer default
-	}
-	var out Tensors
-	var rerr error
-	panicked = v.Try(func() { out, rerr = m.Run(in) })
-	v.Assert("C01.no-panic", !panicked)
-	if panicked {
-		return
-	}
-	var ref map[string]tensor.Tensor
-	var referr error
-	refPanicked := v.Try(func() { ref, referr = g.zzReference(refEnv) })
-	v.Assert("C01.reference-no-panic", !refPanicked)
-	if refPanicked {
-		return
-	}
-	if referr == nil {
-		for _, name := range g.outputs {
-			if t, ok := ref[name]; !ok || t == nil {
-				// a declared output that nothing produces: "present and non-nil, or Run reports an error"
-				referr = ErrModel("reference: declared output %v is never produced", name)
+	// one Run with the named inputs supplied by the caller (the others left to their initializer defaults),
+	// compared with the reference composition; "supplied2" (optional): a second Run on the same Model with
+	// another choice of supplied inputs
+	round := func(tag, prefix string, supplied []string) bool {
+		var caller []zzTData
+		for _, spec := range g.inputs {
+			name, _ := zzParseTensorSpec(spec)
+			for _, s := range supplied {
+				if s == name {
+					caller = append(caller, zzParseSpec(v, spec, prefix))
+				}
 			}
 		}
+		in := Tensors{}
+		refEnv := map[string]tensor.Tensor{}
+		// the reference gets its own tensor objects
+		for _, d := range inits {
+			refEnv[d.name] = d.zzTensor()
+		}
+		for _, d := range caller {
+			in[d.name] = d.zzTensor()
+			refEnv[d.name] = d.zzTensor() // a caller tensor overrides the initializer default
+		}
+		var out Tensors
+		var rerr error
+		panicked = v.Try(func() { out, rerr = m.Run(in) })
+		v.Assert("C01.no-panic"+tag, !panicked)
+		if panicked {
+			return false
+		}
+		var ref map[string]tensor.Tensor
+		var referr error
+		refPanicked := v.Try(func() { ref, referr = g.zzReference(refEnv) })
+		v.Assert("C01.reference-no-panic"+tag, !refPanicked)
+		if refPanicked {
+			return false
+		}
+		if referr == nil {
+			for _, name := range g.outputs {
+				if t, ok := ref[name]; !ok || t == nil {
+					// a declared output that nothing produces: "present and non-nil, or Run reports an error"
+					referr = ErrModel("reference: declared output %v is never produced", name)
+				}
+			}
+		}
+		if v.Has("evaluates") && v.CBool("evaluates") {
+			// a well-formed graph of supported operators on fitting shapes: it is evaluated, not refused
+			v.Assert("C01.well-formed-graph-is-evaluated"+tag, rerr == nil)
+		}
+		v.Assert("C01.error-iff-the-composition-fails"+tag, (rerr != nil) == (referr != nil))
+		if rerr != nil || referr != nil {
+			return false
+		}
+		v.Assert("C01.exactly-the-declared-outputs"+tag, len(out) == len(g.outputs))
+		for _, name := range g.outputs {
+			got, ok := out[name]
+			want, wok := ref[name]
+			if !wok {
+				// a declared output that no node, input or initializer produces: nothing sensible can be returned
+				v.Assert("C01.unproduced-output-is-absent"+tag, !ok || got == nil)
+				continue
+			}
+			v.Assert("C01.declared-output-present-and-non-nil"+tag, ok && got != nil)
+			if ok && got != nil {
+				v.AssertSameTensor("C01.output-equals-composition"+tag+":"+name, got, want)
+			}
+		}
+		return true
 	}
-	if v.Has("evaluates") && v.CBool("evaluates") {
-		// a well-formed graph of supported operators on fitting shapes: it is evaluated, not refused
-		v.Assert("C01.well-formed-graph-is-evaluated", rerr == nil)
-	}
-	v.Assert("C01.error-iff-the-composition-fails", (rerr != nil) == (referr != nil))
-	if rerr != nil || referr != nil {
+	if !round("", "in_", v.CStrs("supplied")) {
 		return
 	}
-	v.Assert("C01.exactly-the-declared-outputs", len(out) == len(g.outputs))
-	for _, name := range g.outputs {
-		got, ok := out[name]
-		want, wok := ref[name]
-		if !wok {
-			// a declared output that no node, input or initializer produces: nothing sensible can be returned
-			v.Assert("C01.unproduced-output-is-absent", !ok || got == nil)
-			continue
-		}
-		v.Assert("C01.declared-output-present-and-non-nil", ok && got != nil)
-		if ok && got != nil {
-			v.AssertSameTensor("C01.output-equals-composition:"+name, got, want)
-		}
+	if v.Has("supplied2") {
+		round(":second-run", "in2_", v.CStrs("supplied2"))
 	}
 }
